@@ -1556,7 +1556,9 @@ _ical_pull(struct ical_parser_s p[static 1U])
 		 * to start with a single allowed whitespace in
 		 * which case we enter the normal chop_more
 		 * procedure */
-		if (LIKELY(*BP != ' ' && *BP != '\t')) {
+		if (LIKELY(!BZ || (*BP != ' ' && *BP != '\t'))) {
+			/* also when there is nothing to look at, that's how
+			 * callers tell us there won't be more */
 			goto proc;
 		}
 		/* just get on with it */
